@@ -399,10 +399,26 @@ func (e *Encoder) loopHeader(li *loopInfo, b *ssa.BasicBlock, st *State, pc stri
 		}
 	}
 	// havoc
-	keys, all := e.memKeysWritten(li.body)
+	spec, handled := e.loopSpecificWrites(li.body)
+	keys, all := e.memKeysWritten(li.body, handled)
 	if all {
 		e.havocAll(st, fmt.Sprintf("loop %d body has unknown memory effects", li.ord))
 	} else {
+		// cells written at loop-invariant locations: havoc exactly those cells
+		for k, locs := range spec {
+			if _, whole := keys[k]; whole {
+				continue
+			}
+			for _, l := range locs {
+				v := e.freshVal("lc", l.t)
+				if w := e.wellTyped(v, ""); w != "true" {
+					c.assume(w)
+				}
+				srt := c.memSort(l.t)
+				cur := st.get(c, k, srt)
+				st.mem[k] = c.define("M_"+k, srt, fmt.Sprintf("(store %s %s %s)", cur, l.loc, v.S))
+			}
+		}
 		for k, t := range keys {
 			n := c.fresh("M_" + k)
 			srt := c.memSort(t)
@@ -476,6 +492,41 @@ func (e *Encoder) rangeBounds(li *loopInfo) []rangeBound {
 			continue
 		}
 		t := phi.Type()
+		// counting loop `for i := c; i < L; i++` (header test phi < L, single increment): c <= i
+		if iff, ok := li.header.Instrs[len(li.header.Instrs)-1].(*ssa.If); ok && phi.Comment != "rangeindex" && phi.Comment != "rangeint.iter" {
+			if cmp, ok := iff.Cond.(*ssa.BinOp); ok && cmp.Op == token.LSS && cmp.X == ssa.Value(phi) && li.body[li.header.Succs[0]] {
+				var entry *ssa.Const
+				okShape := true
+				for pi, pred := range li.header.Preds {
+					ev := phi.Edges[pi]
+					if e.back[[2]*ssa.BasicBlock{pred, li.header}] {
+						add, ok := ev.(*ssa.BinOp)
+						if !ok || add.Op != token.ADD || add.X != ssa.Value(phi) {
+							okShape = false
+							break
+						}
+						if k, ok := add.Y.(*ssa.Const); !ok || k.Value == nil || k.Int64() != 1 {
+							okShape = false
+							break
+						}
+					} else {
+						k, ok := ev.(*ssa.Const)
+						if !ok || k.Value == nil || (entry != nil && entry.Int64() != k.Int64()) {
+							okShape = false
+							break
+						}
+						entry = k
+					}
+				}
+				if okShape && entry != nil {
+					lo := c.lit(t, big.NewInt(entry.Int64()))
+					out = append(out, rangeBound{phi, fmt.Sprintf("%d <= %s (counting loop)", entry.Int64(), phi.Comment), func(p string) string {
+						return c.cmp("<=", t, lo, p)
+					}})
+					continue
+				}
+			}
+		}
 		var limit ssa.Value
 		// find `phi+1 < L` in the loop with L defined outside the loop
 		for b := range li.body {
@@ -713,7 +764,7 @@ func (e *Encoder) instr(in ssa.Instruction, st *State, pc string) {
 	case *ssa.FieldAddr:
 		x := e.val(in.X)
 		e.panicObl("nil", "field address of nil pointer", pc, not(fmt.Sprintf("(= %s lnil)", x.S)))
-		e.vals[in] = Val{T: in.Type(), S: fmt.Sprintf("(lfield %s %d)", x.S, in.Field)}
+		e.vals[in] = Val{T: in.Type(), S: c.lfield(x.S, in.X.Type().Underlying().(*types.Pointer).Elem().Underlying().(*types.Struct), in.Field)}
 	case *ssa.IndexAddr:
 		x := e.val(in.X)
 		i := c.convert(in.Index.Type(), intT, e.val(in.Index).S)
@@ -775,6 +826,14 @@ func (e *Encoder) instr(in ssa.Instruction, st *State, pc string) {
 		l := c.convert(in.Len.Type(), intT, e.val(in.Len).S)
 		k := c.convert(in.Cap.Type(), intT, e.val(in.Cap).S)
 		e.panicObl("make", "make([]T, len, cap) size", pc, e.makeSafe(in.Type().Underlying().(*types.Slice).Elem(), l, k))
+		if e.fc != nil && e.fc.AllocBound && e.primary {
+			// decoders: an allocation is bounded by the number of input bytes still unread
+			if rd, ok := e.readerSrcLen(st); ok {
+				e.addObl("alloc-bound", "make length <= bytes remaining in the reader", pc, c.cmp("<=", intT, k, rd))
+			} else {
+				e.errs = append(e.errs, "allocbound: no kbin.Reader found in this function")
+			}
+		}
 		loc := e.alloc(st)
 		v := Val{T: in.Type(), S: fmt.Sprintf("(mkslice %s %s %s %s)", loc, c.idxLit(0), l, k)}
 		e.vals[in] = v
@@ -825,6 +884,64 @@ func (e *Encoder) instr(in ssa.Instruction, st *State, pc string) {
 	default:
 		e.unsupported(in, st, pc)
 	}
+}
+
+// readerSrcLen: len(b.Src) of the function's kbin.Reader (a local of that type or a *Reader parameter).
+func (e *Encoder) readerSrcLen(st *State) (string, bool) {
+	isReader := func(t types.Type) (*types.Struct, bool) {
+		n, ok := t.(*types.Named)
+		if !ok || n.Obj().Name() != "Reader" || n.Obj().Pkg() == nil || !strings.HasSuffix(n.Obj().Pkg().Path(), "kbin") {
+			return nil, false
+		}
+		s, ok := n.Underlying().(*types.Struct)
+		return s, ok
+	}
+	// every reader of the function (generated decoders open a nested reader per tagged field, whose
+	// bytes are a span of the outer reader's): the bound is the largest of their unread lengths
+	var locs []string
+	var rs *types.Struct
+	for _, p := range e.fn.Params {
+		if pt, ok := p.Type().Underlying().(*types.Pointer); ok {
+			if s, ok := isReader(pt.Elem()); ok {
+				locs, rs = append(locs, e.val(p).S), s
+			}
+		}
+	}
+	for _, b := range e.fn.Blocks {
+		for _, in := range b.Instrs {
+			if al, ok := in.(*ssa.Alloc); ok {
+				if s, ok := isReader(al.Type().Underlying().(*types.Pointer).Elem()); ok {
+					if v, has := e.vals[al]; has {
+						locs, rs = append(locs, v.S), s
+					}
+				}
+			}
+		}
+	}
+	if rs == nil {
+		return "", false
+	}
+	src := -1
+	for i := 0; i < rs.NumFields(); i++ {
+		if rs.Field(i).Name() == "Src" {
+			src = i
+		}
+	}
+	if src < 0 {
+		return "", false
+	}
+	intT := types.Typ[types.Int]
+	best := ""
+	for _, loc := range locs {
+		v := e.load(st, e.c.lfield(loc, rs, src), rs.Field(src).Type())
+		l := fmt.Sprintf("(slen %s)", v.S)
+		if best == "" {
+			best = l
+		} else {
+			best = fmt.Sprintf("(ite %s %s %s)", e.c.cmp(">=", intT, best, l), best, l)
+		}
+	}
+	return best, true
 }
 
 func (e *Encoder) unsupported(in ssa.Instruction, st *State, pc string) {
@@ -1209,7 +1326,7 @@ func (e *Encoder) coveredBy(loc string, t types.Type, p string) string {
 	case *types.Struct:
 		var cs []string
 		for i := 0; i < u.NumFields(); i++ {
-			cs = append(cs, e.coveredBy(fmt.Sprintf("(lfield %s %d)", loc, i), u.Field(i).Type(), p))
+			cs = append(cs, e.coveredBy(e.c.lfield(loc, u, i), u.Field(i).Type(), p))
 		}
 		return or(cs...)
 	case *types.Array:
